@@ -542,6 +542,11 @@ static void push_args2(Node *args, bool first_pass) {
   default:
     push();
   }
+
+  if (args->stack_pad) {
+    println("  sub $8, %%rsp");
+    depth++;
+  }
 }
 
 // Load function call arguments. Arguments are already evaluated and
@@ -580,7 +585,6 @@ static int push_args(Node *node) {
     case TY_UNION:
       if (ty->size > 16) {
         arg->pass_by_stack = true;
-        stack += align_to(ty->size, 8) / 8;
       } else {
         int ngp, nfp;
         struct_regs(ty, &ngp, &nfp);
@@ -590,30 +594,31 @@ static int push_args(Node *node) {
           gp = gp + ngp;
         } else {
           arg->pass_by_stack = true;
-          stack += align_to(ty->size, 8) / 8;
         }
       }
       break;
     case TY_FLOAT:
     case TY_DOUBLE:
-      if (fp < FP_MAX) {
+      if (fp < FP_MAX)
         fp++;
-      } else {
+      else
         arg->pass_by_stack = true;
-        stack++;
-      }
       break;
     case TY_LDOUBLE:
       arg->pass_by_stack = true;
-      stack += 2;
       break;
     default:
-      if (gp < GP_MAX) {
+      if (gp < GP_MAX)
         gp++;
-      } else {
+      else
         arg->pass_by_stack = true;
-        stack++;
-      }
+    }
+
+    if (arg->pass_by_stack) {
+      // An argument with 16-byte alignment starts at a 16-byte
+      // boundary of the argument area.
+      arg->stack_pad = (ty->align >= 16 && stack % 2 == 1);
+      stack += arg->stack_pad + align_to(ty->size, 8) / 8;
     }
   }
 
@@ -1488,7 +1493,7 @@ static void assign_lvar_offsets(Obj *prog) {
         }
       }
 
-      top = align_to(top, 8);
+      top = align_to(top, MAX(8, ty->align));
       var->offset = top;
       top += var->ty->size;
     }
